@@ -27,6 +27,7 @@ RULE = ("case = one seed (key array x key representation x sort); states = disti
         "stops when no operation leads to a new state (fixpoint = all finite histories covered) or "
         "at the state cap; non-trivial = seeds with > 1 reachable state")
 ASSUMPTIONS = [
+    'three seeds live under the all-reversed completion order while the fresh reference runs FIFO; masked cumcount is in the alphabet',
     'word seeds: every key word over {null,0,1,2} of length 2..3 (quick) / 2..4 (thorough) x chunk-wise fan-out x sort is the seed of its own search to fixpoint under a reduced alphabet (one mutator per class of successor state + observers); nine failing calls (misaligned values / mask, failing user function) belong to the alphabet',
     "operations are deterministic functions of (object state, arguments) - then closing the "
     "state set covers every finite history over the alphabet",
